@@ -541,6 +541,14 @@ impl DmlExecutor {
                     if index.indexed_column_ids().iter().any(|c| values.get(*c).is_none_or(|v| v.is_null())) {
                         continue;
                     }
+                    // The key joins the write set: a concurrent transaction inserting the same key does
+                    // not see this entry when it probes the index, the second committer is refused.
+                    let mut key_bytes: Vec<u8> = Vec::new();
+                    for col in index.indexed_column_ids() {
+                        key_bytes.extend_from_slice(&values[*col].serialize()?);
+                    }
+                    self.ctx.record_key_write(index.id(), &key_bytes)?;
+
                     let index_row = Self::build_index_entry(&values, index, index_schema, row_id)?;
                     let index_tuple =
                         TupleBuilder::from_schema(index_schema).build(&index_row, tid)?;
